@@ -791,6 +791,18 @@ func (x *Exec) contractCall(st *State, fi *FuncInfo, args []*Term, call *ast.Cal
 			delete(x.boxed, p)
 		}
 	}
+	// a recursive call binds the very variables of the running activation: keep their values
+	savedVals := map[*types.Var]*Term{}
+	for _, p := range params {
+		if v, ok := st.vars[p]; ok {
+			savedVals[p] = v
+		}
+	}
+	for _, rv := range fi.Results {
+		if v, ok := st.vars[rv]; ok {
+			savedVals[rv] = v
+		}
+	}
 	for i, p := range params {
 		if i < len(args) {
 			st.vars[p] = args[i]
@@ -931,6 +943,9 @@ func (x *Exec) contractCall(st *State, fi *FuncInfo, args []*Term, call *ast.Cal
 	x.popFrame()
 	for p := range savedBoxed {
 		x.boxed[p] = true
+	}
+	for p, v := range savedVals {
+		st.vars[p] = v
 	}
 	for k := range st.vars {
 		if !before[k] {
